@@ -25,7 +25,9 @@ SENT = {
     "OpaqueCallback_Pair": (lambda i: "((OpaqueCallback_Pair){(void *)(uintptr_t)(0x4000 + %d), sent_cb})" % i, lambda a, b: "((%s).context == (%s).context && (%s).func == (%s).func)" % (a, b, a, b)),
     "KeyValueCallback": (lambda i: "((KeyValueCallback){(void *)(uintptr_t)(0x4100 + %d), sent_kvcb})" % i, lambda a, b: "((%s).context == (%s).context && (%s).func == (%s).func)" % (a, b, a, b)),
     "struct CIterator_i32": (lambda i: "((struct CIterator_i32){(void *)(uintptr_t)(0x4200 + %d), sent_it})" % i, lambda a, b: "((%s).iter == (%s).iter && (%s).func == (%s).func)" % (a, b, a, b)),
-    "FNPTR": (lambda i: "sent_fn", lambda a, b: "(%s) == (%s)" % (a, b)),
+    "FNPTR2": (lambda i: "sent_fn", lambda a, b: "(%s) == (%s)" % (a, b)),
+    "FNPTR1": (lambda i: "sent_fn1", lambda a, b: "(%s) == (%s)" % (a, b)),
+    "FNPTR0": (lambda i: "sent_fn0", lambda a, b: "(%s) == (%s)" % (a, b)),
 }
 
 
@@ -53,12 +55,18 @@ def split_params(p):
     return out
 
 
+
+def fnptr_key(params):
+    params = params.strip()
+    return "FNPTR%d" % (0 if params in ("", "void") else params.count(",") + 1)
+
+
 def parse_param(p):
     """-> (type text, name)"""
     p = p.strip()
     m = re.match(r"(.*)\(\*\s*(\w*)\)\((.*)\)\s*$", p)
     if m:
-        return "FNPTR", m.group(2)
+        return fnptr_key(m.group(3)), m.group(2)
     m = re.match(r"(.*?)(\w+)$", p)
     return norm_ty(m.group(1)), m.group(2)
 
@@ -97,6 +105,8 @@ static void mock_box_drop(void *p) { box_drops++; box_drop_seq = ++SEQ; (void)p;
 static const void *mock_arc_clone(const void *p) { arc_clones++; arc_clone_seq = ++SEQ; return p; }
 static void mock_arc_drop(const void *p) { arc_drops++; if (!arc_drop_seq_first) arc_drop_seq_first = ++SEQ; else arc_drop_seq_last = ++SEQ; (void)p; }
 static void sent_fn(int32_t a, int32_t b) { (void)a; (void)b; }
+static void sent_fn1(int32_t a) { (void)a; }
+static void sent_fn0(void) { }
 static void reset(void) { NLOG = 0; SEQ = 0; box_drops = arc_clones = arc_drops = 0; box_drop_seq = arc_clone_seq = arc_drop_seq_first = arc_drop_seq_last = 0; }
 """)
     text = header_text
@@ -128,7 +138,7 @@ static void reset(void) { NLOG = 0; SEQ = 0; box_drops = arc_clones = arc_drops 
                     if nm == "":
                         ps.append(ty)
                         an = re.search(r"\(\*(\w+)\)", ty).group(1)
-                        key = "FNPTR"
+                        key = fnptr_key(re.search(r"\)\((.*)\)\s*$", ty).group(1))
                     else:
                         ps.append("%s%s%s" % (ty, "" if ty.endswith("*") else " ", nm))
                         an = nm
